@@ -90,11 +90,14 @@ func pqWaitFor(ch <-chan struct{}) bool {
 	}
 }
 
-func runPoolQueue(c *core.Ctx, rng *rand.Rand) {
+func runPoolQueue(c *core.Ctx, rng *rand.Rand, kFixed int) {
 	c.Branch("poolq")
 	name := fmt.Sprintf("verif-c19-pq-%d", pqSeq.Add(1))
 	pool := concurrent.NewPool(name, 1, time.Minute, metrics.NewConcurrentStatistics(name, linmetric.BrokerRegistry))
 	k := 1 + rng.Intn(12) // tasks 1..k behind the blocker; 10.. meet the full channel
+	if kFixed > 0 {
+		k = kFixed
+	}
 	n := k + 1
 	tasks := make([]*pqTask, n)
 	for i := range tasks {
